@@ -23,7 +23,8 @@ func init() {
 			"R5 the client wraps the decoded WireErrors in an HTTPError carrying resp.StatusCode, and converts *WireErrors to error only when non-empty; " +
 			"R6 prefix writer/reader agreement: HTTPError/WireError messages and trimErrorCodePrefix build their prefixes with the same two helpers followed by the same separator; " +
 			"R7 WireError.Is answers true only under equality of the two codes, httpError.Is only for status 416 and ErrRangeInvalid. " +
-			"R6b httpError.Error writes its `<status> <status text>` prefix on every path (no status-dependent variant).",
+			"R6b httpError.Error writes its `<status> <status text>` prefix on every path (no status-dependent variant). " +
+			"R5b the client reads an error body up to a constant limit; R8 a response returned by the auth transport has not had its Body closed by it.",
 		NotDecided: "the message fixed point as a string fact for arbitrary message texts, and preservation of detail JSON bytes, are not decided.",
 		Technique:  "static analysis: table extraction from the package initialiser, format-verb/provenance analysis of fmt.Errorf arguments, SSA dominance",
 	})
